@@ -878,7 +878,8 @@ def r34_run_idempotence(ctx, include=None, rule='R34'):
     for c in sorted(ctx.repo.classes.values(), key=lambda c: c.qualname):
         if include is not None and not include(c):
             continue
-        if not ctx.res.is_subclass(c, 'DataStreamProcessor') and c.name != 'DataStreamProcessor':
+        # (step classes, and the Flow object itself: it is what is run again)
+        if not ctx.res.is_subclass(c, 'DataStreamProcessor') and c.name != 'DataStreamProcessor' and c.qualname != 'dataflows.base.flow:Flow':
             continue
         bases = [b.node for b in c.mro[1:]]
         hits = rerun_state(c.node, bases)
